@@ -446,7 +446,8 @@ func (u *UDPServerTransport) receiveMessage() {
 func (u *UDPServerTransport) startParseMessage() {
 	for {
 		sized_byte_array := <-u.msgParseChannel
-		reader := bufio.NewReaderSize(bytes.NewBuffer(sized_byte_array.b), sized_byte_array.n)
+		// only the first n bytes of the recycled buffer belong to this datagram
+		reader := bufio.NewReaderSize(bytes.NewBuffer(sized_byte_array.b[:sized_byte_array.n]), sized_byte_array.n)
 		msg, err := ParseMessage(reader)
 		u.msgBufPool.Free(sized_byte_array.b)
 		if err == nil {
